@@ -1,4 +1,5 @@
 import ServiceModel.Proofs.Reachable
+import ServiceModel.Proofs.Debit
 /-!
 # C05 — Only the rightful party can act, and a message debits only its signer
 -/
@@ -293,5 +294,19 @@ theorem enable_debits_only_signer (s : State) (svc : SvcName) (pv o : Addr) (dep
       cases hsend : (if dep.isSome = true then bankSend s.bank o s.cfg.deposit (dep.getD 0) else some s.bank) with
       | none => exact Nat.le_refl _
       | some bank' => exact dep_send_ge hsend ha
+
+/-! ### the end of a block -/
+/-- Expiry processing (phase 1 of the end blocker, over any list of queue entries) lowers no balance outside the
+    module's two custody accounts: refunds leave the escrow, slashed coins are burned from the deposit account. -/
+theorem expiry_lowers_only_custody (s : State) (l : List CtxId) (a : Addr) (ha : ¬ s.custody a) :
+    balOf s.bank.bal a ≤ balOf (foldH expireBatch s l).s.bank.bal a :=
+  (expirePhase_balMono s l).2 a ha (by simp)
+
+/-- The new-batch handler of a context lowers only the balance of that context's consumer (by the price of the batch
+    it issues, `C06.batch_issued`; nothing when the batch is skipped or the context is paused for lack of funds). -/
+theorem new_batch_lowers_only_its_consumer (s : State) (c : CtxId) (x : Ctx) (hx : Map.get s.ctxs c = some x)
+    (a : Addr) (ha : ¬ s.custody a) (hne : a ≠ x.cons) :
+    balOf s.bank.bal a ≤ balOf (newBatch s c).s.bank.bal a :=
+  (newBatch_balMono s c x hx).2 a ha (by simpa using hne)
 
 end SM.C05
